@@ -39,8 +39,7 @@ def handleRecord (op : String) (a : Json) (q : String → Bool) : Option Json :=
     let ign : List (Str × Bool) := ((objPairs (fld a "ignored")).getD []).map fun kv =>
       (L kv.1, match kv.2 with | Json.bool b => b | _ => false)
     let cfg : Cfg := { algs := (getStrs a "algs").map L, ignored := fun p => (InToto.lookup p ign).getD false,
-                       lstrip := (getStrs a "lstrip").map L, followDirs := getBool a "follow",
-                       noStripSymlink := q "lstrip_skips_symlinks" }
+                       lstrip := (getStrs a "lstrip").map L, followDirs := getBool a "follow" }
     let roots : List (Str × Option Node) := (getArr a "roots").map fun r =>
       (L (getStr r "path"), if isNull (fld r "node") then none else some (toNode (fld r "node")))
     some (match recordArtifacts cfg roots [] with
